@@ -61,7 +61,7 @@ Arrive(r, tie) ==
          inRamp == g1.state = "recovering"
          v == {c \in {"C05.TrippedShields", "C05.StandbyPasses", "C05.LegalTransition", "C12.RecoveryBegins",
                       "C12.StandbyAfterRecovery", "C12.PassWithinRamp", "C12.RefuseOnlyAtRamp"} :
-                 CASE c = "C05.TrippedShields" -> g.state = "tripped" /\ now < g.shield /\ res.pass
+                 CASE c = "C05.TrippedShields" -> now < g.shield /\ res.pass
                    [] c = "C05.StandbyPasses" -> g.state = "standby" /\ ~res.pass
                    [] c = "C05.LegalTransition" -> IllegalTrans(g.state, res.trans)
                    [] c = "C12.RecoveryBegins" -> g.state = "tripped" /\ now >= g.shield /\ (res.trans = <<>> \/ Head(res.trans) # "recovering")
